@@ -26,6 +26,12 @@ def nontrivial(p: dict) -> bool:
     return p["a"]["k"] not in ("typed", "any") or p["b"]["k"] not in ("typed", "any")
 
 
+def same_type_literal_union(t: dict) -> bool:
+    ms = t.get("ms", []) if t["k"] == "union" else []
+    classes = [m["o"]["c"] for m in ms if m["k"] == "known"]
+    return 2 <= len(ms) <= 3 and len(classes) == len(ms) and len(set(classes)) < len(classes)
+
+
 def run(check: core.Check) -> None:
     quick = check.tier == "quick"
     rnd = random.Random(check.seed)
@@ -52,8 +58,12 @@ def run(check: core.Check) -> None:
     exhaustive = len(pairs) <= limit
     if not exhaustive:
         # TypedDict-vs-TypedDict pairs are always replayed (few, and each flag combination matters)
-        keep = [p for p in pairs if p["a"]["k"] == "typeddict" and p["b"]["k"] == "typeddict"]
-        rest = [p for p in pairs if not (p["a"]["k"] == "typeddict" and p["b"]["k"] == "typeddict")]
+        # ... and so are the unions of same-run-time-type literals offered to every expected type
+        def always(p: dict) -> bool:
+            return (p["a"]["k"] == "typeddict" and p["b"]["k"] == "typeddict") or same_type_literal_union(p["b"])
+
+        keep = [p for p in pairs if always(p)]
+        rest = [p for p in pairs if not always(p)]
         pairs = keep + rnd.sample(rest, limit - len(keep))
     check.cov["exhaustive"] = exhaustive
     check.cov["rule"] = "pairs (A, B) of type terms enumerated by TLC; non-trivial = at least one side is not a plain class / Any"
